@@ -68,11 +68,13 @@ def build_d17(case):
     for i in range(n):
         blockers = []
         for j in bb[i]:
-            if names[j] is None and style == "int":
+            if names[j] is None and style in ("int", "assign"):
                 blockers.append(j + 1)
             else:
                 blockers.append(eff[j])
-        jkw = dict(command=f"echo {i} 'x y'", blocked_by=set(blockers))
+        jkw = dict(command=f"echo {i} 'x y'")
+        if style != "assign":
+            jkw["blocked_by"] = set(blockers)
         if names[i] is not None:
             jkw["name"] = names[i]
         if opt in ("est", "all"):
@@ -87,7 +89,11 @@ def build_d17(case):
             jkw["append_output_dir"] = True
         if opt in ("ext", "all"):
             jkw["ext"] = {"k": [1, "two"], "nested": {"a": None}}
-        cfg.add_job(GenericCommandParameters(**jkw))
+        p = GenericCommandParameters(**jkw)
+        if style == "assign":
+            # the public attribute (as `jade config assign-blocked-by` and user scripts do), ints for unnamed jobs
+            p.blocked_by = [(j + 1) if names[j] is None else eff[j] for j in bb[i]]
+        cfg.add_job(p)
     for g in gnames:
         cfg.append_submission_group(SubmissionGroup(name=g, submitter_params=SubmitterParams(
             hpc_config=HpcConfig(hpc_type="slurm", hpc={"account": "acct", "walltime": "0:02:00"}),
@@ -101,7 +107,7 @@ def d17_cases(maxn=3):
     for n in range(1, maxn + 1):
         for names in name_vectors(n):
             for bb in S.dags(n):
-                styles = ("str", "int") if any(bb) and any(x is None for x in names) else ("str",)
+                styles = ("str", "int", "assign") if any(bb) and any(x is None for x in names) else (("str", "assign") if any(bb) else ("str",))
                 for style in styles:
                     for opt in OPT_VECTORS:
                         for k in (1, 2, 3):
@@ -183,6 +189,7 @@ class C17RoundTrip(EnumCheck):
 
 
 INVALIDITIES = ("unknown-blocker", "duplicate-name", "unknown-group", "duplicate-group", "max-nodes-differ",
+                "max-nodes-second-unset", "poll-interval-first-differs",
                 "poll-interval-differ", "hpc-type-differ", "estimate-above-walltime", "missing-estimate-size0",
                 "none", "estimate-equals-walltime")
 
@@ -201,6 +208,15 @@ def inject(data, inv):
         jobs[-1]["submission_group"] = "nope"
     elif inv == "duplicate-group":
         groups.append(json.loads(json.dumps(groups[0])))
+    elif inv == "max-nodes-second-unset":
+        if len(groups) < 2:
+            return False
+        groups[0]["submitter_params"]["max_nodes"] = 4
+        groups[1]["submitter_params"]["max_nodes"] = None
+    elif inv == "poll-interval-first-differs":
+        if len(groups) < 2:
+            return False
+        groups[0]["submitter_params"]["poll_interval"] = 3
     elif inv in ("max-nodes-differ", "poll-interval-differ", "hpc-type-differ"):
         if len(groups) < 2:
             return False
